@@ -48,6 +48,8 @@ type transport struct {
 	mu     sync.Mutex
 	log    []rpcRec
 	closed bool // Close was called on the "connection": every later RPC fails as grpc-go's does
+	failUnlock        int  // the next n Unlock RPCs are answered Unavailable (transport failure) ...
+	failUnlockApplied bool // ... after the server has applied them (the response is lost), instead of before
 	onEv   func(ev string, name, key string) // optional observer (event log of the M5c validation): renew / answer <0|1> / unlockrpc / connclose
 }
 
@@ -137,6 +139,20 @@ func (t *transport) Unlock(ctx context.Context, in *pb.UnlockRequest, _ ...grpc.
 	}
 	at := int64(time.Since(t.start))
 	t.ev("unlockrpc", in.Name, in.Key)
+	t.mu.Lock()
+	fail := t.failUnlock > 0
+	if fail {
+		t.failUnlock--
+	}
+	applied := t.failUnlockApplied
+	t.mu.Unlock()
+	if fail {
+		if applied {
+			t.svc.Unlock(t.conn, in)
+		}
+		t.rec(rpcRec{Method: "Unlock", Name: in.Name, Key: in.Key, AtNs: at, Err: "(unavailable)"})
+		return nil, status.Error(codes.Unavailable, "transport is closing")
+	}
 	m, err := t.svc.Unlock(t.conn, in)
 	if err == nil {
 		t.rec(rpcRec{Method: "Unlock", Name: in.Name, Key: in.Key, AtNs: at, Ok: m.Unlocked, Err: errCode(m.Error)})
